@@ -120,7 +120,11 @@ def coarse_spaces(tier, seed):
                 mode=[("p", 30.0), ("T", 343.15), ("p", 0.5)], frac=core.lat([0.6, 1.1, 1.3, 3.0], seed), steps=[2, 3, 6, 10], dt=[0.5, 1.0],
                 x0=[1.0, 0.0] + core.lat([0.999, 0.5], seed), mixture=["H2O_EtOH", "S2"], P=[(1e-3, 2e-5), (1e-3, 8e-4)],
                 curves=[spaces.CURVE_CONFIGS["one"]], init_perm=[None])
-    return [core.Space("coarse_ideal", ideal, ok), core.Space("coarse_nonideal", non, ok), core.Space("overdraw_then_backflow", back, ok)]
+    # a programme that diverges to +inf at an interior grid time, on a membrane so small that nothing else stops the run
+    div = dict(base, kind=["ideal_noniso", "nonideal_noniso"], prog=["log_sing2", "exp_overflow"], frac=[1e-15, 1e-19], dt=[1.0, 0.5], steps=[3, 4, 6, 8],
+               x0=core.lat([0.45], seed), mixture=["H2O_EtOH", "S2"], P=[(1e-3, 2e-5)], ea=[(20000.0, 21000.0)], curves=[spaces.CURVE_CONFIGS["one"], spaces.CURVE_CONFIGS["two"]], init_perm=[None])
+    extra = [core.Space("diverging_programme", div, ok)]
+    return extra + [core.Space("coarse_ideal", ideal, ok), core.Space("coarse_nonideal", non, ok), core.Space("overdraw_then_backflow", back, ok)]
 
 
 def main(tier, seed):
